@@ -6,7 +6,7 @@ from datetime import datetime
 from typing import Any, Dict, List
 
 from .. import coqrun as C
-from .. import core, engprop as E, gen, hx
+from .. import core, engprop as E, gen, hx, hxcorr
 from .. import indicators as X
 
 from hexital import Candle  # noqa: E402
@@ -206,6 +206,96 @@ def falsify_encodings(ctx, case: Dict) -> bool:
     return False
 
 
+def gen_delivery_case(rng) -> Dict:
+    """A Hexital whose members come and go while candles keep arriving: remove_indicator leaves
+    the timeframe's manager in place, and every manager must keep receiving every candle."""
+    tfs_pool = ["T5", "T10", "T15", "H1"]
+    specs, tfs = [], []
+    for j in range(rng.randint(2, 3)):
+        s = X.gen_spec(rng, rng.choice(["SMA", "EMA", "OBV", "TR", "RMA", "HL"]), inputs=("close",))
+        s["name_suffix"] = f"d{j}"
+        specs.append(s)
+        tfs.append(None if j == 0 and rng.random() < 0.5 else rng.choice(tfs_pool))
+    rows = X.gen_rows(rng, rng.randint(6, 40), late=0, step=rng.choice([60, 300]))
+    for r in rows:
+        r["inds"] = {}
+    init = rng.randint(0, min(5, len(rows)))
+    ops, i, live = [], init, set(range(len(specs)))
+    while i < len(rows):
+        u = rng.random()
+        if u < 0.3 and live:
+            j = rng.choice(sorted(live))
+            live.discard(j)
+            ops.append(("remove", j))
+        elif u < 0.5 and len(live) < len(specs):
+            j = rng.choice(sorted(set(range(len(specs))) - live))
+            live.add(j)
+            ops.append(("add", j))
+        else:
+            k = rng.randint(1, 6)
+            ops.append(("append", rows[i:i + k]))
+            i += k
+    for j in sorted(set(range(len(specs))) - live):
+        ops.append(("add", j))
+    return {"specs": specs, "tfs": tfs, "rows": rows, "init": init, "ops": ops}
+
+
+def falsify_delivery(ctx, case: Dict) -> bool:
+    """append delivers the same candle to every timeframe of a Hexital - including a timeframe
+    whose indicators have all been removed: each manager always equals a standalone
+    CandleManager of that timeframe fed the whole stream so far."""
+    from .. import impl
+    specs, tfs, rows = case["specs"], case["tfs"], case["rows"]
+    bad = None
+    try:
+        with core.time_limit(60):
+            ms = [hx.member(s, tf) for s, tf in zip(specs, tfs)]
+            if len({m.name for m in ms}) != len(ms):
+                return False
+            h = hx.hexital(rows[:case["init"]], ms)
+            fed = list(rows[:case["init"]])
+            for step, op in enumerate(case["ops"]):
+                if op[0] == "append":
+                    h.append(X.mk_rows(op[1]))
+                    fed += op[1]
+                elif op[0] == "remove":
+                    h.remove_indicator(ms[op[1]].name)
+                else:
+                    h.add_indicator(hx.member(specs[op[1]], tfs[op[1]]))
+                for name, cs in h.get_candles().items():
+                    ref = impl.manager({"tf": None if name == "default" else name}, fed).candles
+                    got = [(gen.to_ts(c.timestamp), impl.snap_ohlcv(c)) for c in cs]
+                    exp = [(gen.to_ts(c.timestamp), impl.snap_ohlcv(c)) for c in ref]
+                    if got != exp:
+                        bad = {"relation": "timeframe-missed-candles", "after": op[0],
+                               "orphan": not any(getattr(m, "timeframe", None) == name for m in h.indicators.values())
+                               if name != "default" else False}
+                        break
+                if bad:
+                    break
+            if not bad:
+                # the members present at the end read like standalone twins
+                h.calculate()
+                for s, tf, m in zip(specs, tfs, ms):
+                    ind = h.indicators.get(m.name)
+                    if ind is None:
+                        continue
+                    twin = X.build(s, X.mk_rows(fed), {"tf": tf} if tf else {})
+                    twin.calculate()
+                    own = lambda i: [(gen.to_ts(c.timestamp), impl.snap_ohlcv(c), copy.deepcopy(c.indicators.get(i.name)))
+                                     for c in i.candles]  # noqa: E731  (managers are shared: own series only)
+                    if own(ind) != own(twin):
+                        bad = {"relation": "member-differs-from-standalone-after-remove-add"}
+                        break
+    except Exception as e:  # noqa
+        bad = {"relation": "raises", "exc": type(e).__name__}
+    if bad:
+        ctx.fail({"mode": "delivery", **bad}, f"specs={specs} tfs={tfs} n={len(rows)}: {bad}",
+                 {"mode": "delivery", "case": case}, size=len(rows))
+        return True
+    return False
+
+
 def run(ctx: core.Ctx) -> int:
     proof = C.check_props("C19")
     ctx.proof_broken.extend(proof["broken"])
@@ -257,6 +347,16 @@ def run(ctx: core.Ctx) -> int:
         ctx.seen({"spec": spec, "form": form, "batch": c["batch"], "rows": rows}, True)
         if len(ctx.samples) < 4:
             ctx.sample({"mode": "encodings", "spec": spec, "form": form, "batch": c["batch"], "n": n})
+    hc = hxcorr.HxCorr(ctx, "C19")
+    for _ in range(ctx.n(80, 800)):
+        c = gen_delivery_case(rng)
+        ctx.count("eval_falsifier")
+        falsify_delivery(ctx, c)
+        dist["delivery"] = dist.get("delivery", 0) + 1
+        ctx.seen({"specs": c["specs"], "tfs": c["tfs"], "ops": [o[0] for o in c["ops"]]}, True)
+        ops = [("add", c["specs"][o[1]], c["tfs"][o[1]]) if o[0] == "add" else o for o in c["ops"]]
+        hc.add(c["specs"], c["tfs"], {}, c["rows"][:c["init"]], ops, rng, {"mode": "delivery"})
+    hc.run()
     ctx.coverage.update({"input_distribution": dist,
                          "nontrivial_rule": "indicator over >= 3 candles with a sequence of accessors/appends; or an encoding case"})
     return core.finish(ctx, proof)
@@ -264,7 +364,8 @@ def run(ctx: core.Ctx) -> int:
 
 def replay(ctx: core.Ctx, rep: Dict) -> int:
     r = rep["replay"]
-    f = {"reads": falsify_reads, "hx-reads": falsify_hx_reads, "encodings": falsify_encodings}[r["mode"]]
+    f = {"reads": falsify_reads, "hx-reads": falsify_hx_reads, "encodings": falsify_encodings,
+         "delivery": falsify_delivery}[r["mode"]]
     failed = f(ctx, r["case"])
     print("REPRODUCED" if failed else "NOT-REPRODUCED")
     return 1 if failed else 0
